@@ -47,8 +47,38 @@ def oracle(sc, o):
     return bad
 
 
+def hook_probes(rng, n):
+    """Implementation-only probes (NOT in the Lean model): a Pausable device whose pause() is a coroutine that
+    really suspends gives _run one more suspension point, inside the pause sequence; a request from another
+    thread may land there."""
+    from engine_common import M, number, seq
+
+    out = []
+    for i in range(n):
+        body = [M("open_run"), M("checkpoint"), M("set", "m1", 1 + i % 3, group="g"), M("wait", None, group="g")]
+        body += [M("null")] * rng.randrange(0, 3) + [M("pause", None, defer=False), M("null"), M("close_run")]
+        plan = {"k": "try", "body": seq(*body), "handler": None, "fin": seq(M("null"))}
+        sc = {"record_interruptions": rng.random() < 0.5, "devices": {"m1": {"kind": "motor", "pausable": "async"}}, "plan": plan,
+              "script": {}, "decisions": [rng.choice(["resume", "abort", "stop", "halt"]) for _ in range(3)], "max_arrivals": 200}
+        base = E.run_scenario(number(sc))
+        hooks = [k for k, a in enumerate(base["arrivals"]) if a == "hook"]
+        if hooks:
+            sc["script"] = {str(rng.choice(hooks)): [{"a": rng.choice(["abort", "stop", "halt", "pause", "abort"])}]}
+        out.append(number(sc))
+    return out
+
+
 def run(ctx, model=True):
-    return E.run_property(ctx, "C07", oracle, gen=lambda rng: E.gen_scenario(rng, dense=rng.random() < 0.5), quick=150, thorough=4000, model=model)
+    res = E.run_property(ctx, "C07", oracle, gen=lambda rng: E.gen_scenario(rng, dense=rng.random() < 0.5), quick=150, thorough=4000, model=model)
+    probes = hook_probes(ctx.rng, ctx.budget(12, 200))
+    for sc in probes:
+        o = E.run_scenario(sc)
+        res.seen(sc, True)
+        res.count("impl-only-probe:async-pause-hook")
+        for sig, what in oracle(sc, o):
+            res.violations.append(C.Violation("async-pause-hook:" + sig, "implementation-only probe (async pause hook): " + what, sc))
+    res.notes.append(f"{len(probes)} implementation-only probes with an async Pausable.pause() hook (a suspension point of _run that the Lean model does not have)")
+    return res
 
 
 def run_impl_only(ctx):
